@@ -7,7 +7,7 @@ from props.shared import *
 EXPLANATION = ("R-EXIT acquire evidence (MutexGuard::new only behind CAS-success / park-Ok / unparked-while-cancel-disabled), "
                "R-ORDER enqueue-before-count, R-PAIR unlock hands over on cnt>1 and guard drop always unlocks, R-SIB forwarding "
                "handshake on the cancel arm (waiter and waker side), R-MO on cnt, R-API the only dereferences of Mutex.data")
-EXPLANATION_2 = ('Mutex::lock cancel arm: Cancel panic only with the cancel enabled, enabled cancel stops the waiter, a received hand-off (park Ok) goes straight to the guard; unlock_mutex forwards; blocker wiring imported from C02')
+EXPLANATION_2 = ('Mutex::lock cancel arm: Cancel panic only with the cancel enabled, enabled cancel stops the waiter, a received hand-off (park Ok) goes straight to the guard; unlock_mutex forwards; blocker wiring imported from C02; the hand-off of an abandoned waiter does not recurse (F28, known finding)')
 NOT_DECIDED = "freedom from stranded waiters over all interleavings; eventual return of lock(); fairness"
 CONFIGS_QUICK = ["default"]
 NEEDS_TARGET = True
